@@ -3,8 +3,9 @@ import sys, os, json, time, subprocess, glob, re, shutil
 import common
 from common import VERIF, REPO, BUILD, NCPU, SEED, sh, harness_error, HarnessError
 
-EVID = os.path.join(VERIF, 'evidence')
-REPLAYS = os.path.join(VERIF, 'replays')
+_SCRATCH = os.environ.get('VERIF_SCRATCH_OUT')   # set together with VERIF_REPO: keep evidence/replays of seed runs out of /verif/evidence
+EVID = os.path.join(_SCRATCH, 'evidence') if _SCRATCH else os.path.join(VERIF, 'evidence')
+REPLAYS = os.path.join(_SCRATCH, 'replays') if _SCRATCH else os.path.join(VERIF, 'replays')
 
 # ----------------------------------------------------------------------------- reporting
 class Report:
@@ -104,7 +105,7 @@ def run_gram(pid, tier, rep, deadline_s):
         harness_error('the white-box harness does not compile against this tree:\n' + exe[1])
     merged_all = []
     bounds = []
-    work = os.path.join(BUILD, 'run-%s-%s' % (pid, tier))
+    work = os.path.join(BUILD, 'run-%s-%s%s' % (pid, tier, ('-%d' % os.getpid()) if _SCRATCH else ''))
     shutil.rmtree(work, ignore_errors=True)
     exhaustive = True
     for pi, (label, args) in enumerate(passes):
@@ -214,7 +215,7 @@ RX_RULE = {
 def run_rx(pid, tier, rep, deadline_s):
     exe = common.build_rx()
     if isinstance(exe, tuple): harness_error('the white-box harness does not compile against this tree:\n' + exe[1])
-    work = os.path.join(BUILD, 'run-%s-%s' % (pid, tier)); shutil.rmtree(work, ignore_errors=True)
+    work = os.path.join(BUILD, 'run-%s-%s%s' % (pid, tier, ('-%d' % os.getpid()) if _SCRATCH else '')); shutil.rmtree(work, ignore_errors=True)
     tot = {'counters': {}, 'violations': [], 'violation_counts': {}, 'samples': [], 'outcomes': set(), 'crashes': []}
     bounds = []; exhaustive = True
     for pi, (label, args) in enumerate(rx_passes(pid, tier)):
@@ -330,6 +331,67 @@ def run_prog_check(pid, tier, rep, deadline_s):
                     'what_states_and_transitions_are': 'states = enumerated cases (configuration x input), all executed on the real library through its public interface; transitions = individual oracle checks evaluated'}
     rep.assumptions = ['black-box: compiled without the verification guard and without access to private members']
 
+# ----------------------------------------------------------------------------- C07: compile-time program enumerator (E-CT)
+C07_RULE = 'For each literal-typed grammar every input up to the bound over the grammar\'s terminals, a foreign byte and whitespace becomes one line `constexpr auto r_i = p.parse(cstring_buffer("..."))` of a generated translation unit. Phase 1: g++ and clang++ check the unit with -fsyntax-only and unlimited diagnostics; every diagnostic is mapped back to its case by line number, so "is this parse a constant expression on this compiler" is decided per case. Phase 2: the unit is compiled to a program (cases that are not constant expressions fall back to run time only) which parses every input at run time through cstring_buffer, string_buffer and string_view_buffer, with a constexpr-constructed and a run-time-constructed parser, and compares all six results with each other and with the constant-evaluated value.'
+
+def c07_one(gname, n, comp, work):
+    src = os.path.join(work, '%s_%s.cpp' % (gname, comp.replace('+', 'p'))); mp = src + '.map.json'
+    r = sh([sys.executable, os.path.join(VERIF, 'gen', 'c07_gen.py'), gname, str(n), src, mp])
+    if r.returncode != 0: harness_error('c07 generator failed: ' + r.stderr)
+    m = json.load(open(mp)); lines = {int(k): v for k, v in m['lines'].items()}; inputs = m['inputs']
+    inc = ['-std=c++17', '-I' + os.path.join(REPO, 'include')]
+    if comp == 'g++': syn = ['g++'] + inc + ['-fsyntax-only', '-fmax-errors=0', '-fconstexpr-ops-limit=2000000000', '-fconstexpr-loop-limit=100000000', src]
+    else: syn = ['clang++'] + inc + ['-fsyntax-only', '-ferror-limit=0', '-fconstexpr-steps=400000000', src]
+    r = sh(syn)
+    bad = {}; other = []
+    base = os.path.basename(src)
+    for l in (r.stdout + r.stderr).splitlines():
+        mm = re.match(r'.*?' + re.escape(base) + r':(\d+):\d+: error: (.*)', l)
+        if mm:
+            ln = int(mm.group(1))
+            if ln in lines: bad.setdefault(lines[ln], mm.group(2))
+            else: other.append(l)
+        elif ': error:' in l and base not in l: pass
+    res = {'grammar': gname, 'compiler': comp, 'cases': len(inputs), 'not_constant': [(i, inputs[i], bad[i]) for i in sorted(bad)], 'other_errors': other[:3]}
+    if other: return res
+    exe = src[:-4]
+    flags = ['-O1'] + (['-fconstexpr-ops-limit=2000000000', '-fconstexpr-loop-limit=100000000'] if comp == 'g++' else ['-fconstexpr-steps=400000000'])
+    r = sh([comp] + inc + flags + ['-DNOCE_%d' % i for i in bad] + [src, '-o', exe])
+    if r.returncode != 0: res['other_errors'] = [(r.stdout + r.stderr)[-600:]]; return res
+    r = sh([exe], timeout=600)
+    try: res['run'] = json.loads((r.stdout.strip().splitlines() or [''])[-1])
+    except Exception: res['other_errors'] = ['run-time part crashed: rc=%s %s' % (r.returncode, (r.stdout + r.stderr)[-300:])]
+    for f in (exe, src, mp):
+        try: os.remove(f)
+        except OSError: pass
+    return res
+
+def run_c07(pid, tier, rep, deadline_s):
+    q = tier == 'quick'
+    plan = [('stars', 4 if q else 6), ('expr', 3 if q else 4), ('recovery', 4 if q else 5), ('numbers', 3 if q else 5)]
+    work = os.path.join(BUILD, 'run-C07-%s%s' % (tier, ('-%d' % os.getpid()) if _SCRATCH else '')); shutil.rmtree(work, ignore_errors=True); os.makedirs(work)
+    jobs = [(g, n, c) for (g, n) in plan for c in ('g++', 'clang++')]
+    from concurrent.futures import ThreadPoolExecutor
+    with ThreadPoolExecutor(max_workers=NCPU) as ex: results = list(ex.map(lambda j: c07_one(j[0], j[1], j[2], work), jobs))
+    shutil.rmtree(work, ignore_errors=True)
+    cases = checks = ce = acc = 0; samples = []; bounds = []
+    for r in results:
+        label = '%s grammar, inputs<=%d, %s' % (r['grammar'], dict(plan)[r['grammar']], r['compiler'])
+        if r['other_errors']:
+            rep.add({'kind': 'does-not-compile', 'known': '', 'engine': 'ct', 'summary': '%s: the generated unit does not compile: %s' % (label, ' / '.join(map(str, r['other_errors']))[:500])}); bounds.append({'pass': label, 'completed': False}); continue
+        for (i, text, msg) in r['not_constant'][:3]:
+            rep.add({'kind': 'not-a-constant-expression', 'known': '', 'engine': 'ct', 'summary': '%s: constexpr auto r = p.parse(cstring_buffer(%r)) is not a constant expression: %s' % (label, text, msg[:200]), 'count': len(r['not_constant']), 'grammar': r['grammar'], 'input': text, 'compiler': r['compiler']})
+        run = r.get('run', {})
+        if run.get('failures', 0): rep.add({'kind': 'results-differ', 'known': '', 'engine': 'ct', 'summary': '%s: %d mismatches; first: %s' % (label, run['failures'], run.get('first_failure', '')), 'count': run['failures']})
+        cases += run.get('cases', 0); checks += run.get('checks', 0); ce += run.get('constant_evaluated', 0); acc += run.get('accepted', 0)
+        bounds.append({'pass': label, 'completed': True, 'cases': r['cases'], 'not_constant_expressions': len(r['not_constant'])})
+        samples.append({'grammar': r['grammar'], 'compiler': r['compiler'], 'cases': r['cases'], 'result': run})
+    rep.coverage = {'states': max(cases, 1), 'transitions': max(checks + ce, 1), 'traces_validated_against_impl': ce, 'samples': samples[:8] or [{'note': 'nothing ran'}],
+                    'evaluations': cases, 'distinct_nontrivial': acc, 'rule': C07_RULE + ' Non-trivial (distinct_nontrivial) = accepted inputs; rejected inputs are the interesting half for constant evaluation and are all included.',
+                    'exhaustive': all(b['completed'] for b in bounds), 'bounds': bounds,
+                    'what_states_and_transitions_are': 'states = (grammar, input, compiler) cases; transitions = result comparisons + constant evaluations; traces_validated_against_impl = cases whose compile-time value was compared with the run-time value'}
+    rep.assumptions = ['black-box programs; compilers: g++ 12 and clang++ 14 as installed']
+
 # ----------------------------------------------------------------------------- dispatch
 QUICK_DEADLINE, THOROUGH_DEADLINE = 240, 1500
 
@@ -358,6 +420,7 @@ def main(argv):
         if pid in GRAM_PROPS: run_gram(pid, tier, rep, deadline)
         elif pid in RX_PROPS: run_rx(pid, tier, rep, deadline)
         elif pid in PROG_SPECS: run_prog_check(pid, tier, rep, deadline)
+        elif pid == 'C07': run_c07(pid, tier, rep, deadline)
         else: print('no check for ' + pid); return 2
         return rep.finish()
     except HarnessError as e:
